@@ -39,6 +39,7 @@ def modes : List Mode := []
   ++ [Drv.TableApi.mode]
   ++ [Drv.T2Db.mode]
   ++ Drv.C15.modes
+  ++ [Drv.Lib1.mode, Drv.Lib1.oracle]
   ++ [Drv.Lib2.mode]
 
 def dispatch (line : String) : String :=
